@@ -4,6 +4,7 @@
 -/
 import Props.Tables
 import Jmes.Interp
+import Proofs.Printer
 namespace Jmes.Props
 open Jmes Jmes.Interp
 
@@ -123,5 +124,36 @@ theorem C15_context_congruence (ft : List FnEntry) (c : Ctx N) (e e' : Node N) (
 theorem C15_substitute_literal (ft : List FnEntry) (c : Ctx N) (e : Node N) (d v : Val N)
     (h : eval ft e d = .ok v) : eval ft (c.fill e) d = eval ft (c.fill (.literal v)) d :=
   C15_context_congruence ft c e (.literal v) d (by simp only [h, eval])
+
+/-! ### the pipe splits the written expression
+
+At token level: writing `A | B` — `A` any expression that does not itself end
+in a looser construct (`rp ≥ 1`: always true), `B` any expression that binds
+tighter than a pipe — yields the AST `Pipe(A, B)`; with the composition theorem
+above, `search (A | B) d = search B (search A d)` for the written forms. -/
+
+open Jmes.Spec Jmes.Parser in
+theorem C15_written_pipe_is_pipe_node (l r : PE N) (hw : Parser.wf (.bin .pipe l r)) :
+    parseTokens Generated.table (ppE (.bin .pipe l r) ++ [eofTok 0]) = .ok (.pipe (node l) (node r)) := by
+  rw [parseTokens_congr (sameDecisions_of_tableOK Generated.table Spec.table generated_table_ok spec_table_ok),
+    round_trip_spec _ hw]
+  rfl
+
+omit [NumOps N] in
+open Jmes.Spec Jmes.Parser in
+/-- … and when neither side needs parentheses the written form is literally `A`, `|`, `B`. -/
+theorem C15_written_pipe_tokens (l r : PE N) (hl : ¬ l.rp < 1) (hr : ¬ r.level ≤ 1) :
+    ppE (.bin .pipe l r) = ppE l ++ tk .pipe :: ppE r := by
+  simp [ppE, BinOp.pow, BinOp.tok, hl, hr]
+
+open Jmes.Spec Jmes.Parser in
+/-- End to end for the written pipe: evaluate the parse of `A | B` = evaluate `B` on the value of `A`. -/
+theorem C15_written_pipe_composes (ft : List FnEntry) (l r : PE N) (hw : Parser.wf (.bin .pipe l r)) (d : Val N) :
+    (parseTokens Generated.table (ppE (.bin .pipe l r) ++ [eofTok 0]) >>= fun ast => eval ft ast d) =
+      (match eval ft (node l) d with
+       | .ok v => eval ft (node r) v
+       | e => e) := by
+  rw [C15_written_pipe_is_pipe_node l r hw]
+  rfl
 
 end Jmes.Props
